@@ -114,7 +114,15 @@ def run_property(a, ck):
     if not res["go_ok"]:
         corr_errors.append({"what": "go build of harness/hooks against /repo failed", "log": res["go_log"][-3000:]})
     else:
+        replay_stage = None
+        if a.replay:
+            try:
+                replay_stage = json.load(open(a.replay)).get("harness")
+            except Exception:  # noqa
+                replay_stage = None
         for st in stages:
+            if replay_stage and st["harness"] != replay_stage:
+                continue
             n = a.n or st["n"][tier]
             try:
                 rc, o, cases = run_harness(ck, prop, st["harness"], n, seed, tier, rundir, replay=a.replay)
